@@ -8,7 +8,7 @@ import operator as _opr
 
 from .. import astq
 from ..core import AnalysisError
-from ..minieval import Interp, Obj, Raises
+from ..minieval import Interp, Obj, Raised, Raises
 from ..model import ClassRef
 
 LEVEL = 'other'
@@ -291,9 +291,117 @@ def r4(ctx, rep):
         rep.instance(R4, ok=False, nontrivial=p)
         rep.finding(R4, f'C14.R4/DequeCache.__setitem__/{p}', m.loc(LEX, fn), 'DequeCache.__setitem__', f'{p}; e.g. {case}')
     rep.floor('C14.R4', 'cache steps', n, 300)
+    r5(ctx, rep, fns)
+
+
+def r5(ctx, rep, fns):
+    """The construction routine (metacall.call) folded over an empty, a warm and an unrelated cache: what a call returns must not
+    depend on the cache.  Constructors are mocks that build an item carrying (class, spec) -- except that, as in the source
+    (Predicate.__init__, checked here by folding it), a Predicate with a negative index cannot be constructed: the system
+    predicates exist once, in Predicate.System."""
+    m = ctx.m
+    R5 = rep.rule('C14.R5', 'cache invisibility (metacall.call folded): the same item comes back whether its spec is cached, was never cached or was evicted -- '
+                            'system predicates (not constructible) included; a constructed item is stored under (class name, spec) and its ident')
     call = fns.get('metacall.<locals>.call')
-    txt = astq.u(call) if call else ''
-    ok = 'return cache[clsname, spec]' in txt and 'cache[clsname, spec] = cache[inst.ident] = inst' in txt and 'inst: LexicalAbc = supercall(cls, *spec)' in txt
-    rep.instance(R4, ok=ok, nontrivial='metacall')
-    if not ok:
-        rep.finding(R4, 'C14.R4/metacall', m.relfile(LEX), 'metacall.call', 'items are no longer looked up / stored under (class name, spec) and ident')
+    if call is None:
+        raise AnalysisError('metacall.call not found in lex.py')
+    rep.consult(m.loc(LEX, call) + ' metacall.call')
+    # structural fact used by the mock constructor: Predicate.__init__ refuses a negative index once System exists
+    pinit = m.func(LEX, 'Predicate.__init__')
+    itp = Interp(dict(BiCoords=lambda *a: a, ValueError=lambda *a: 'ValueError', TypeError=lambda *a: 'TypeError'), where='lang/lex.py Predicate.__init__')
+    r = itp.safe(pinit, [Obj('pred', arity=2, index=-1, subscript=0, System=True, spec=(-1, 0, 2)), (-1, 0, 2)])
+    refuses = isinstance(r, Raises)
+    rep.instance(R5, ok=True, nontrivial=('Predicate.__init__ negative index', refuses))
+    rep.consult(m.loc(LEX, pinit) + ' Predicate.__init__')
+
+    class Item:
+        def __init__(self, clsname, spec):
+            self.clsname, self.spec = clsname, spec
+            self.ident = (clsname, spec if len(spec) != 1 or not isinstance(spec[0], tuple) else spec[0])
+
+        def __eq__(self, o):
+            return isinstance(o, Item) and o.ident == self.ident
+
+        def __hash__(self):
+            return hash(self.ident)
+
+        def __repr__(self):
+            return f'<{self.clsname}{self.ident[1]}>'
+
+    class Cls:
+        def __init__(self, name, abstract=False):
+            self.__name__, self.abstract = name, abstract
+
+        def __repr__(self):
+            return self.__name__
+
+        def __call__(self, *spec):
+            return current['call'](self, *spec)      # constructing through the class goes through metacall.call again
+    current = {}
+    IDENTITY = Item('Predicate', ((-1, 0, 2),))
+
+    def system(key):
+        if key in ('Identity', (-1, 0, 2), (-1, 0), ('Predicate', (-1, 0, 2))):
+            return IDENTITY
+        raise KeyError(key)
+    PredicateC, ConstantC, LexicalAbcC = Cls('Predicate'), Cls('Constant'), Cls('LexicalAbc', abstract=True)
+    PredicateC.System = system
+    built = []
+
+    def construct(cls, *spec):
+        coords = spec[0] if len(spec) == 1 and isinstance(spec[0], tuple) else spec
+        if cls.abstract:
+            raise TypeError('abstract')
+        if cls is PredicateC and refuses and isinstance(coords[0], int) and coords[0] < 0:
+            raise ValueError('`index` must be >= 0')
+        it_ = Item(cls.__name__, spec)
+        built.append(it_)
+        return it_
+
+    class LexTypeM:
+        def __contains__(self, c):
+            return c in (PredicateC, ConstantC)
+
+        def __call__(self, name):
+            return Obj('LexType', cls={'Predicate': PredicateC, 'Constant': ConstantC}[name])
+    n = 0
+    for cls, spec, want in ((ConstantC, (1, 2), Item('Constant', (1, 2))), (ConstantC, ((1, 2),), Item('Constant', ((1, 2),))),
+                            (PredicateC, ((0, 0, 1),), Item('Predicate', ((0, 0, 1),))), (PredicateC, ((-1, 0, 2),), IDENTITY),
+                            (PredicateC, (-1, 0, 2), IDENTITY), (PredicateC, ('Identity',), IDENTITY),
+                            (LexicalAbcC, (('Predicate', (-1, 0, 2)),), IDENTITY), (LexicalAbcC, (('Constant', (1, 2)),), Item('Constant', (1, 2)))):
+        outcomes = {}
+        for state in ('never cached', 'cached', 'other items cached'):
+            cache = {}
+            if state == 'cached':
+                cache[cls.__name__, spec] = want
+                cache[want.ident] = want
+                if want is IDENTITY:
+                    for k in (('Predicate', ((-1, 0, 2),)), ('Predicate', (-1, 0, 2))):
+                        cache[k] = IDENTITY
+            elif state == 'other items cached':
+                cache['Constant', (3, 3)] = Item('Constant', (3, 3))
+            del built[:]
+            it = Interp(dict(cache=cache, supercall=lambda c, *sp: construct(c, *sp), Predicate=PredicateC, LexType=LexTypeM(), LexicalAbc=LexicalAbcC,
+                             abcs=Obj('abcs', isabstract=lambda c: c.abstract), isinstance=lambda o, t: (isinstance(o, Item) and t in (PredicateC, ConstantC, LexicalAbcC) and (t is LexicalAbcC or o.clsname == t.__name__)) if isinstance(t, Cls) else isinstance(o, t),
+                             issubclass=lambda a, b: b is LexicalAbcC or a is b, TypeError=TypeError, KeyError=KeyError, ValueError=ValueError, tuple=tuple, int=int, str=str, len=len),
+                        where='lang/lex.py metacall.call')
+            current['call'] = lambda c, *sp, it=it: it.call(call, [c, *sp])
+            try:
+                r = it.call(call, [cls, *spec])
+            except Raised as e:
+                r = Raises(e.text)
+            except (TypeError, KeyError, ValueError, AttributeError) as e:
+                r = Raises(f'{type(e).__name__}: {e}')
+            outcomes[state] = r
+            n += 1
+            stored_ok = True
+            if built and not isinstance(r, Raises):
+                stored_ok = cache.get(r.ident) is r and cache.get((r.clsname, r.spec)) is r
+            ok = (not isinstance(r, Raises)) and r == want and stored_ok
+            case = f'{cls}{spec} with the spec {state}'
+            rep.instance(R5, ok=ok, nontrivial=case)
+            if not ok:
+                rep.finding(R5, f'C14.R5/{case}', m.loc(LEX, call), 'metacall.call',
+                            f'{case}: returns {r!r}, expected {want!r}' + ('' if stored_ok else '; the new item is not stored under its spec key and its ident')
+                            + (f' (while it returns {outcomes.get("cached")!r} when cached)' if state != 'cached' and 'cached' in outcomes else ''))
+    rep.floor('C14.R5', 'construction calls', n, 24)
